@@ -20,6 +20,11 @@ let pool_event (tok : string) : pl_event =
      | [id; d] -> PEvCloseEnd (n_of_int (int_of_string id), dial_of_char d.[0])
      | _ -> failwith "pool: bad E")
   | 'X' -> PEvClientClose
+  | 'Q' -> PEvPick (dial_of_char rest.[0])
+  | 'F' ->
+    (match String.split_on_char ',' rest with
+     | [id; d] -> PEvCloseEnd (n_of_int (int_of_string id), dial_of_char d.[0])
+     | _ -> failwith "pool: bad F")
   | _ -> failwith "pool: bad event"
 
 let pool_out (o : pl_out) : string =
@@ -44,6 +49,12 @@ let () =
           (fun tok ->
             let (q, (((r, o), l), c)) = pl_observe !p (pool_event tok) in
             p := q;
+            (* Q and F: a Client.Close started while the dial was under way can only take effect afterwards *)
+            let (o, l, c) =
+              if tok.[0] = 'Q' || tok.[0] = 'F' then begin
+                let (q2, (((_, o2), l2), c2)) = pl_observe !p PEvClientClose in
+                p := q2; (o @ o2, l2, c2)
+              end else (o, l, c) in
             pool_res r ^ "/" ^ String.concat "," (List.map pool_out o) ^ "/"
             ^ String.concat "." (List.map (fun x -> string_of_int (int_of_n x)) l)
             ^ "/" ^ (if c then "1" else "0"))
